@@ -262,6 +262,7 @@ func cmdCheck(args []string) int {
 	var viols []violation
 	var known []string
 	var unprovedSeen []string
+	var overflowAssumed []string
 	seen := map[string]*Oblig{}
 	discharged := 0
 	claimed := 0
@@ -275,6 +276,11 @@ func cmdCheck(args []string) int {
 		seen[o.Name] = o
 		if reason, ok := unproved[o.Name]; ok {
 			unprovedSeen = append(unprovedSeen, o.Name+" — "+reason+" (status now: "+o.Status+")")
+			continue
+		}
+		if o.Kind == "ovf" && o.Status != "unsat" {
+			// advisory: 64-bit arithmetic is treated as mathematical where absence of overflow is not proved
+			overflowAssumed = append(overflowAssumed, fmt.Sprintf("%s at %s", o.Name, o.Pos))
 			continue
 		}
 		claimed++
@@ -344,6 +350,9 @@ func cmdCheck(args []string) int {
 		}
 		fmt.Printf("VIOLATION property=%s replay=%s%s\n", *prop, v.Replay, sfx)
 		fmt.Fprintf(os.Stderr, "  %s: %s\n", v.Oblig, v.Reason)
+	}
+	for _, oa := range overflowAssumed {
+		unprovedSeen = append(unprovedSeen, oa+" — 64-bit overflow not excluded; arithmetic treated as mathematical there (advisory obligation, not claimed)")
 	}
 	writeEvidence(*prop, *tier, seed, pr, lock[*prop], viols, known, time.Since(start), unprovedSeen)
 	fmt.Fprintf(os.Stderr, "govc: %s %s: %d units, %d obligations claimed, %d discharged, %d violations, %d known findings, %d unproved(not claimed), load %dms, gen+solve %dms\n",
